@@ -104,6 +104,15 @@ def run(ctx):
     ctx.log("model: %d class strings (length <= %d); %d break the quoted shape, %d break an unquoted shape" % (
         len(pred), maxlen, sum(1 for b in pred.values() if "quoted_eq" in b), sum(1 for b in pred.values() if "unquoted_eq" in b)))
 
+    if not quick:
+        # the other dialect (backslash escapes inside '...'): the safe shapes must be data-only there too (with
+        # backslashes doubled); how many more strings break the quoted shape is reported, never used for a verdict
+        rb = ctx.tlc("sqllex", "SqlLex", "SqlLex_bs3.cfg", workers=8, timeout=900,
+                     label="backslash-escape dialect: safe shapes data-only; predictions (information only)")
+        more = [m["s"] for m in rb.msgs.get("str", []) if "quoted_eq" in m["breaks"] and "quoted_eq" not in pred[tuple(m["s"])]]
+        ctx.notes.append("backslash-escape dialect (MySQL default, PostgreSQL with standard_conforming_strings=off), length <= 3: "
+                         "%d further class strings break the quoted shape, e.g. %s (model level only)" % (len(more), sorted(more)[:3]))
+
     # ---------------------------------------------------------------- 2. cases for the real code
     full_len = 2 if quick else 3           # exhaustive on the code up to this length
     sample_n = 300 if quick else 4000       # seeded sample of the next length
